@@ -396,6 +396,23 @@ impl TextSelection {
             self.begin + self.beginaligned_cursor(&offset.begin)?,
             self.begin + self.beginaligned_cursor(&offset.end)?,
         );
+        if begin > self.end {
+            return Err(StamError::CursorOutOfBounds(
+                offset.begin,
+                "Begin cursor is out of bounds",
+            ));
+        } else if end > self.end {
+            return Err(StamError::CursorOutOfBounds(
+                offset.end,
+                "End cursor is out of bounds",
+            ));
+        } else if end < begin {
+            return Err(StamError::InvalidOffset(
+                offset.begin,
+                offset.end,
+                "End must be greater than begin",
+            ));
+        }
         Ok(TextSelection {
             intid: None,
             begin,
